@@ -693,7 +693,7 @@ func TestC12Framing(t *testing.T) {
 			ev.Violation(t, "C12", rp, "Resolve panicked on a DoH response declaring Content-Length %d with a %d-byte body: %v", declared, len(body), rerr)
 		}
 		// one Resolve = a handful of DoH exchanges; a DNS message is at most 65535 bytes
-		if alloc := ms1.TotalAlloc - ms0.TotalAlloc; alloc > 16<<20 {
+		if alloc := ms1.TotalAlloc - ms0.TotalAlloc; alloc > 3*16<<20 {
 			ev.Violation(t, "C12", rp, "Resolve allocated %d bytes while consuming a DoH response (framing %s, declared/actual length %d, %d body bytes sent)", alloc, framing, declared, len(body))
 		}
 		if declared > 65535 && rerr == nil {
@@ -828,6 +828,13 @@ func TestC12CnameGraph(t *testing.T) {
 					for range res.Targets("tcp") {
 					}
 				}
+				// the application asks again (now possibly answered from the cache)
+				for k := 0; k < 2; k++ {
+					if res2, e2 := r.Resolve(ctx, name); e2 == nil {
+						for range res2.Targets("tcp") {
+						}
+					}
+				}
 				return e
 			})
 			runtime.ReadMemStats(&ms1)
@@ -838,7 +845,7 @@ func TestC12CnameGraph(t *testing.T) {
 		if alloc := ms1.TotalAlloc - ms0.TotalAlloc; alloc > 16<<20 {
 			ev.Violation(t, "C12", rp, "Resolve allocated %d bytes on an answer with this CNAME graph", alloc)
 		}
-		if n := len(c12Srv.TakeLog()); n > 64 {
+		if n := len(c12Srv.TakeLog()); n > 3*64 {
 			ev.Violation(t, "C12", rp, "Resolve sent %d queries for one name", n)
 		}
 		cl := []string{"cname_graph"}
